@@ -201,9 +201,23 @@ Definition m_set_font (f : font) (s : st) : st :=
 Definition with_egs (d : egsd) (s : st) : st :=
   mk (toks s) (ctms s) (ccol s) (ccols s) (calpha s) (calphas s) (cfont s) (ofont s) d (nmark s) (markon s).
 
+(* set_state: the dictionary may carry /ca or /CA, which replace what set_alpha installed: the cache of that alpha
+   is dropped (fix of finding F12) *)
 Definition m_set_state (v : gsval) (s : st) : st :=
   let k := KS (Z.of_nat (length (egs s))) in
-  emit (Tgs k v) (with_egs (assign k v (egs s)) s).
+  emit (Tgs k v)
+       (mk (toks s) (ctms s) (ccol s) (ccols s)
+           (match fst v with Some _ => None | None => calpha s end)
+           (match snd v with Some _ => None | None => calphas s end)
+           (cfont s) (ofont s) (assign k v (egs s)) (nmark s) (markon s)).
+
+(* set_color_space('Pattern', stroke); set_color_special(id, stroke): the pattern replaces the current colour, the
+   cached colour is dropped (fix of finding F12, second form) *)
+Definition m_pattern_color (stroke : bool) (p : Z) (s : st) : st :=
+  emit (Tpat stroke p)
+       (emit (Tcs stroke PATTERN_SPACE)
+             (mk (toks s) (ctms s) (if stroke then ccol s else None) (if stroke then None else ccols s)
+                 (calpha s) (calphas s) (cfont s) (ofont s) (egs s) (nmark s) (markon s))).
 
 Definition m_begin_mc (mcid : bool) (s : st) : st :=
   if markon s then
@@ -226,7 +240,7 @@ Definition mstep (o : op) (s : st) : option st :=
   | SetAlpha a i stroke fill => Some (m_set_alpha a i stroke fill s)
   | SetFont f => Some (m_set_font f s)
   | SetState ca CA => Some (m_set_state (ca, CA) s)
-  | PatternColor stroke p => Some (emit (Tpat stroke p) (emit (Tcs stroke PATTERN_SPACE) s))
+  | PatternColor stroke p => Some (m_pattern_color stroke p s)
   | Transform m => m_transform m s
   | TextMatrix m => Some (emit (Ttm m) s)
   | BeginMC mcid => Some (m_begin_mc mcid s)
@@ -448,27 +462,6 @@ Fixpoint tm_disciplined (pending : bool) (ops : list op) : bool :=
   | _ :: r => tm_disciplined pending r
   end.
 
-(* operators installed behind the caches' back (set_state with /ca or /CA, Pattern colour) are harmless when the
-   cache they bypass is empty at that moment *)
-Definition op_guard (s : st) (o : op) : bool :=
-  match o with
-  | SetState ca CA => (is_none ca || is_none (calpha s)) && (is_none CA || is_none (calphas s))
-  | PatternColor stroke _ => if stroke then is_none (ccols s) else is_none (ccol s)
-  | _ => true
-  end.
-Fixpoint guarded (ops : list op) (s : st) : bool :=
-  match ops with
-  | [] => true
-  | o :: r => op_guard s o && match mstep o s with Some s' => guarded r s' | None => true end
-  end.
-Definition raw_free (o : op) : bool :=
-  match o with
-  | SetState None None => true
-  | SetState _ _ => false
-  | PatternColor _ _ => false
-  | _ => true
-  end.
-
 (* every s<n> key is below the size of the dictionary: what makes `s{len(dict)}` a fresh name *)
 Definition key_ok (n : nat) (k : key) : bool := match k with KS m => (0 <=? m) && (m <? Z.of_nat n) | KA _ _ _ => true end.
 (* ... and the alpha keys carry the content Stream.set_alpha gives them *)
@@ -502,8 +495,8 @@ Definition out_matches (s : st) (o : implout) : bool :=
 
 (* bit 0: model <> implementation.  bit 1: the implementation's tokens violate the bracket specification although
    the calls were well bracketed.  bit 2: the rendering of the implementation's tokens differs from the
-   rendering of the un-optimised sequence (a skipped operator was not redundant) although the calls were
-   guarded.  bit 3: same, calls not guarded (expected for the F12 family; reported separately). *)
+   rendering of the un-optimised sequence (a skipped operator was not redundant) although the premises of the
+   theorem hold. *)
 Definition stream_judge (c : bool * list key * list op * option implout) : nat :=
   let '(mark, keys0, ops, out) := c in
   let d0 := map (fun k => (k, canon k)) keys0 in
@@ -513,22 +506,19 @@ Definition stream_judge (c : bool * list key * list op * option implout) : nat :
   | Some s, Some o =>
       let n := nrun ops (nfresh mark d0) in
       let same := same_rendering (interp (io_toks o)) (interp (rev (ntoks n))) in
-      let pre := wb ops && tm_disciplined false ops && egs_wf d0 in
       ((if out_matches s o then 0 else 1) +
        (if wb ops && negb (nested (io_toks o) && dyck_q (io_toks o) && dyck_text (io_toks o) && dyck_mc (io_toks o)
                            && Nat.eqb (length (io_ctms o)) 1) then 2 else 0) +
-       (if pre && guarded ops s0 && negb same then 4 else 0) +
-       (if pre && negb (guarded ops s0) && negb same then 8 else 0))%nat
+       (if wb ops && tm_disciplined false ops && negb same then 4 else 0))%nat
   | _, _ => 1%nat
   end.
 
 (* call traces recorded on real renders (every Stream object of a document): model vs the items found in
    Stream.stream, plus the premises and the conclusion of the theorems evaluated on what the draw code really did.
    bit 0: model <> implementation; bit 1: calls well bracketed but tokens not nested (impossible by theorem);
-   bit 2: premises hold but rendering differs (impossible by theorem); bit 3: rendering differs, calls not guarded
-   (F12 on a real document); bit 4: the calls of the draw code are not well bracketed; bit 5: something is shown
-   in a text object before the text matrix is set; bit 6: initial dictionary not well formed; bit 7: rendering
-   differs because `ET BT` was merged although the text matrix was not set again *)
+   bit 2: premises hold but rendering differs (impossible by theorem); bit 4: the calls of the draw code are not well
+   bracketed; bit 5: something is shown in a text object before the text matrix is set; bit 6: initial dictionary
+   not well formed; bit 7: rendering differs because `ET BT` was merged although the text matrix was not set again *)
 Definition trace_judge (c : bool * egsd * list op * list tok) : nat :=
   let '(mark, d0, ops, out) := c in
   let s0 := fresh mark d0 in
@@ -539,13 +529,11 @@ Definition trace_judge (c : bool * egsd * list op * list tok) : nat :=
       let same := same_rendering (interp out) (interp (rev (ntoks n))) in
       let w := wb ops in
       let tmd := tm_disciplined false ops in
-      let g := guarded ops s0 in
       ((if list_eqb tok_eqb (rev (toks s)) out then 0 else 1) +
        (if w && negb (nested out) then 2 else 0) +
-       (if w && tmd && egs_wf d0 && g && negb same then 4 else 0) +
-       (if w && egs_wf d0 && negb g && negb same then 8 else 0) +
+       (if w && tmd && negb same then 4 else 0) +
        (if w then 0 else 16) + (if w && negb tmd then 32 else 0) + (if egs_wf d0 then 0 else 64) +
-       (if w && negb tmd && egs_wf d0 && g && negb same then 128 else 0))%nat
+       (if w && negb tmd && negb same then 128 else 0))%nat
   end.
 
 (* monitor side: bracket skeleton of a content stream decoded from a real PDF: 0 q, 1 Q, 2 BT, 3 ET, 4 BMC/BDC,
